@@ -33,6 +33,8 @@ type Engine struct {
 	fnWriteCache map[*ssa.Function]*writeSet
 	fnWriteBusy  map[*ssa.Function]bool
 	litStrs   map[string]string
+	regions   map[string]int
+	fieldOfHeap map[string]string
 }
 
 func NewEngine(ld *Loaded, specs *SpecDB) *Engine {
@@ -134,6 +136,14 @@ func (e *Engine) sortOf(T types.Type) Sort {
 		return SInt
 	}
 	panic(fmt.Sprintf("sortOf: unsupported type %s", T))
+}
+
+// sortOfSafe: sort name for struct types, "" otherwise
+func (e *Engine) sortOfSafe(T types.Type) Sort {
+	if _, ok := types.Unalias(T).Underlying().(*types.Struct); ok {
+		return e.sortOf(T)
+	}
+	return ""
 }
 
 func (e *Engine) structSort(T types.Type, st *types.Struct) Sort {
@@ -333,8 +343,22 @@ func (e *Engine) typeInv(T types.Type, x Term) Term {
 			cs = append(cs, e.typeInv(t.Field(i).Type(), e.structField(T, x, i)))
 		}
 		return And(cs...)
+	case *types.Interface:
+		return And(Ge(IfType(x), IntLit(0)), Implies(Eq(IfType(x), IntLit(0)), Eq(IfVal(x), IntLit(0))))
 	}
 	return TTrue
+}
+
+func (e *Engine) regionID(cls string) int {
+	if e.regions == nil {
+		e.regions = map[string]int{}
+	}
+	if id, ok := e.regions[cls]; ok {
+		return id
+	}
+	id := len(e.regions) + 1
+	e.regions[cls] = id
+	return id
 }
 
 func (e *Engine) typeID(T types.Type) int {
@@ -407,5 +431,10 @@ func (e *Engine) boxName(elem types.Type) (string, Sort) {
 }
 func (e *Engine) fieldHeapName(T types.Type, i int) (string, Sort) {
 	si := e.structInfoOf(T)
-	return "H_" + si.named + "_" + sanitize(si.fields[i]), ArraySort(SInt, e.sortOf(si.st.Field(i).Type()))
+	n := "H_" + si.named + "_" + sanitize(si.fields[i])
+	if e.fieldOfHeap == nil {
+		e.fieldOfHeap = map[string]string{}
+	}
+	e.fieldOfHeap[n] = si.fields[i]
+	return n, ArraySort(SInt, e.sortOf(si.st.Field(i).Type()))
 }
